@@ -297,7 +297,7 @@ def _comment_expr(v, tainted):
         return v.id in tainted
     if isinstance(v, ast.Attribute):
         t = src(v)
-        return t.endswith('.annotation.value') or t.endswith('.comment')
+        return t.endswith('.annotation.value') or t.endswith('.comment') or t.endswith('.trailing_comment')
     if isinstance(v, ast.IfExp):
         return _comment_expr(v.body, tainted) or _comment_expr(v.orelse, tainted)
     if isinstance(v, ast.BinOp) and isinstance(v.op, ast.Add):
@@ -347,6 +347,14 @@ def _taint_use_ok(nm, par, tainted, depth=0):
             return True, 'argument of %s' % '/'.join(sorted(_ALIASES[cn]))
         if cn == 'bool' or cn == 'isinstance':
             return True, 'test'
+        # a namedtuple class of the module: building one is storing the text in a tuple (what is done with the field is checked where
+        # it is read)
+        if _REPO is not None and isinstance(p.func, ast.Name):
+            for mod in _REPO.modules.values():
+                vals_ = mod.assigns.get(p.func.id)
+                if vals_ and isinstance(vals_[-1], ast.Call) and src(vals_[-1].func).split('.')[-1] == 'namedtuple':
+                    pp_ = par.get(id(p))
+                    return True, 'field of a %s tuple%s' % (p.func.id, ' (returned)' if isinstance(pp_, ast.Return) else ' (propagated)')
         if child in p.args and _REPO is not None:
             for mod in _REPO.modules.values():
                 fi = mod.funcs.get(cn)
